@@ -18,7 +18,11 @@ MANIFEST = {
             "coap_oscore_new_pdu_encrypted on generated and exhaustive short histories (I vs M vs S, state compared after every event). "
             "Forged messages come with every ciphertext length (none, 1..8 = not longer than the AEAD tag, longer): "
             "short_ciphertext_never_accepted / short_ciphertext_no_trace / accept_at_most_once_dgram over the datagram layer stepD. "
-            "Nonce reuse is additionally OBSERVED, not proved over histories: the (key, nonce) pair really handed to the AEAD "
+            "Sender side over whole histories (nrun: requests in, own requests whose tokens share the association table, responses, "
+            "notifications, Echo challenges, save watermark, crashes + restarts): own_piv_strictly_increasing / "
+            "own_nonce_never_reused (the Partial IVs used with the endpoint's own Sender ID never repeat, all histories, all "
+            "configurations), response_nonce_is_peers (what goes out without Partial IV uses a request nonce of the peer, never an "
+            "own one). The request-nonce half of nonce reuse is OBSERVED, not proved over histories: the (key, nonce) pair really handed to the AEAD "
             "(--wrap=cose_encrypt0_encrypt) for every request, response and notification an endpoint protects while requests, Observe "
             "registrations and forged requests arrive must be pairwise distinct and, without Partial IV, be the nonce of an accepted "
             "request (step theorems only: notification_fresh_piv, observe_response_fresh_piv, forged_request_no_association).",
@@ -36,7 +40,9 @@ REQUIRED_THEOREMS = ["accept_at_most_once", "recorded_at_most_once", "forged_nev
                      "fresh_in_window_accepted", "fresh_response_accepted", "no_ub_shift", "no_ub_recv", "recv_conforms_spec",
                      "spec_accept_at_most_once", "spec_forged_rejected", "piv_never_reused",
                      "short_ciphertext_never_accepted", "short_ciphertext_no_trace", "accept_at_most_once_dgram",
-                     "notification_fresh_piv", "observe_response_fresh_piv", "forged_request_no_association"]
+                     "notification_fresh_piv", "observe_response_fresh_piv", "forged_request_no_association",
+                     "client_association_never_responds", "own_piv_strictly_increasing", "own_nonce_never_reused",
+                     "response_nonce_is_peers"]
 RULE = ("recipient: histories of <= 30 protected messages delivered through coap_oscore_decrypt_pdu to ONE fresh recipient context: "
         "requests (authentic with/without/with wrong Echo, forged with any claimed Partial IV) and, interleaved, responses to an "
         "Observe registration of that endpoint (authentic notifications carrying the peer's sequence number as Partial IV, forged "
@@ -51,6 +57,9 @@ RULE = ("recipient: histories of <= 30 protected messages delivered through coap
         "0 (no payload), 1..8, 9 and more (about 45 % of the forged events, plus every length 0..10 in short contexts); "
         "sender nonces: <= 24 ops over {request / Observe registration / forged request arrives for one of 1..5 tokens, respond "
         "without Observe / notify / respond with OSCORE_SEND_PARTIAL_IV, own request}, all sequences of length <= 3 over 12 symbols; "
+        "whole sender side (endp): <= 26 ops over requests of a conforming peer (with / without / stale Echo, re-delivered), forged "
+        "requests, own requests / Observe registrations / deregistrations with tokens from the same 1..4 tokens, responses, "
+        "crashes + restarts (ssn_freq 0..2^32-1, start values next to 2^40-1), all sequences of length <= 3 over 11 symbols; "
         "the fixed corpus. "
         "non-trivial = distinct history in which at least one message was accepted / one PIV was sent")
 TRUSTED_BASE = ["Lean 4.33 kernel; axioms allowed: propext, Classical.choice, Quot.sound (audited per theorem each run)",
@@ -69,6 +78,9 @@ ASSUMPTIONS = ["a message that does not authenticate is one whose AEAD verificat
                "the value handed to the save callback is what start_seq_num is at the next start (the callback persists it)",
                "piv_never_reused: fewer than 2^63 protect/restart operations and a start value <= 2^40 (else the uint64 counter itself wraps)",
                "messages of one recipient context are processed one at a time (thread safety is C13)",
+               "endp oracle: the peer is conforming (one datagram per sequence number) and replay protection ACROSS restarts is "
+               "Appendix B.1.2's / the peer's: two responses in different lives of the endpoint under the nonce of the same request "
+               "are not judged; the application does not answer a request it was never given (dropped for a stale Echo value)",
                "compiled Lean definitions agree with the kernel's reading of them"]
 SPEC_DECISIONS = ["D15a a never-accepted authentic request older than the window may be accepted or rejected; windows above 64 are capped at 64",
                   "D15b PIV >= 2^40-1 may be rejected", "D15c Appendix B.1.2: no Echo -> challenge, wrong Echo -> not accepted, right Echo -> accepted",
@@ -299,6 +311,67 @@ def exhaustive_nonces(maxlen):
                 out.append("nonces 32 " + " ".join(ops))
     return out
 
+def gen_endp(rng, maxlen=26):
+    """The whole sender side of one security context over its life: requests of a conforming peer (ONE increasing
+    sequence number, tokens re-used, with / without / with a stale Echo value, re-delivered inside one life of the
+    endpoint), forged requests, the endpoint's own requests — their tokens drawn from the SAME small set as those of the
+    requests it receives —, responses (without Observe / notifications / OSCORE_SEND_PARTIAL_IV), the save callback
+    (ssn_freq 0..100), crashes and restarts from the stored value, sequence numbers next to 2^40-1.  The application
+    never answers a token whose only request was dropped for a stale Echo value (it was never given that request)."""
+    w = rng.choice([32, 32, rng.randint(1, 63), 64])
+    b12 = rng.choice([0, 1, 1])
+    f = rng.choice([1, 1, 2, 3, 5, 9, 0, 100, 2 ** 32 - 1])
+    near = rng.random() < 0.12
+    start = SEQ_LIMIT - rng.randint(0, 6) if near else rng.choice([0, 0, 0, 1, rng.randint(0, 50)])
+    if near:
+        b12 = 0                  # a challenge that cannot be protected leaves the association of an unverified request
+    ntok = rng.choice([1, 2, 2, 3, 4])
+    seq = rng.choice([0, 0, 1, 7, rng.randint(0, 300), 2 ** 24 - 2, SEQ_LIMIT - 40])
+    synced = not b12
+    epoch, dirty, ops = [], set(), []
+    for _ in range(rng.randint(2, maxlen)):
+        c = rng.random()
+        t = rng.randrange(ntok)
+        if c < 0.26 and seq < SEQ_LIMIT - 2:
+            k = rng.choice("ggoeeEw" if not synced else "gggooeEw")
+            ops.append("%s%d.%d" % (k, t, seq))
+            if k in "eE":
+                synced = True
+            if k == "w" and not synced:
+                dirty.add(t)
+            elif synced:
+                dirty.discard(t)
+            if k in "go" or synced:
+                epoch.append(ops[-1])
+            seq += rng.choice([1, 1, 1, 1, 2, 3, rng.randint(1, 70)])
+            if rng.random() < 0.5 and t not in dirty:
+                ops.append(("n" if k in "oE" and rng.random() < 0.8 else rng.choice("rrri")) + str(t))
+        elif c < 0.34 and epoch:
+            ops.append(rng.choice(epoch))                    # the network delivers a datagram of this life again
+        elif c < 0.44:
+            p = rng.choice([seq, seq + 1, seq + rng.randint(0, 40), max(0, seq - rng.randint(1, 40)), rng.randint(0, seq + 100)])
+            ops.append("x%d.%d" % (t, min(p, 2 ** 40 - 1)))
+        elif c < 0.60:
+            ops.append(rng.choice("qqqQQD") + str(t))
+        elif c < 0.68:
+            ops.append("c%d" % rng.choice([f, f, f, rng.randint(0, 9), 2 ** 32 - 1]))
+            synced = not b12
+            epoch, dirty = [], set()
+        elif t not in dirty:
+            ops.append(rng.choice("rrrrnnnni") + str(t))
+    return "endp %d %d %d %d %s" % (w, b12, f, start, " ".join(ops))
+
+
+def exhaustive_endp(maxlen):
+    alpha = ["g1.1", "o1.4", "e1.2", "w1.3", "x1.5", "q1", "Q1", "D1", "r1", "n1", "c2"]
+    out = []
+    for b in (0, 1):
+        for n in range(1, maxlen + 1):
+            for ops in itertools.product(alpha, repeat=n):
+                if any(o[0] in "rnqQD" for o in ops):
+                    out.append("endp 32 %d 2 0 %s" % (b, " ".join(ops)))
+    return out
+
 
 def exhaustive(windows, b12s, alphabet, maxlen):
     out = []
@@ -329,7 +402,13 @@ def generate(ctx, escalate=False):
         out.append(gen_replayst(rng))
     for i in range(n // 3):
         out.append(gen_nonces(rng))
+    for i in range(n // 3):
+        out.append(gen_endp(rng))
     nx = exhaustive_nonces(4 if thorough else 3)
+    ne = exhaustive_endp(4 if thorough else 3)
+    ctx.cov["endp"] = ("whole sender side (tokens shared by both roles, Echo, save callback, crash/restart): all op sequences of "
+                       "length <= %d over 11 symbols, Appendix B.1.2 off/on (%d cases), %d random" % (4 if thorough else 3, len(ne), n // 3))
+    out += ne
     # forged messages of every ciphertext length 0..10 in every short context (before / after the window is initialised,
     # PIV below / equal / above last_seq, B.1.2 pending or not)
     fl = []
@@ -592,8 +671,78 @@ def judge_nonces(ctx, c):
     return None
 
 
+def judge_endp(ctx, c):
+    """The property on the implementation's own output over a whole life of the sender side: every (key, nonce) pair
+    handed to the AEAD is used once; a message with a Partial IV uses the nonce of that Partial IV and its own Sender ID;
+    one without uses the nonce of a request of the peer that was decrypted; a restart resumes at the stored value.
+    (Two responses in DIFFERENT lives of the endpoint under the nonce of the same request are not judged: replay
+    protection across restarts is Appendix B.1.2 / the peer's, see ASSUMPTIONS.)"""
+    w = c["input"].split()
+    ops, stored = w[5:], int(w[4])
+    i, m = c["impl"] or "", c["model"] or ""
+    if i.startswith("crash"):
+        return ("spec", "the implementation aborted (sanitizer / undefined behaviour): " + i[:200])
+    it = i.split()
+    if len(it) != len(ops):
+        return ("tie", "harness printed %d results for %d ops: %s" % (len(it), len(ops), i[:120]))
+    seen, genuine, stripped, life = {}, set(), [], 0
+    for k, (op, t) in enumerate(zip(ops, it)):
+        if op[0] == "c":
+            stripped.append(t)
+            if t != "r%d" % stored:
+                return ("spec", "op %d: restart resumed at %s, the value last handed to the save callback is %d" % (k + 1, t[1:], stored))
+            life += 1
+            continue
+        sv = ""
+        if "s" in t and t[0] not in "r":
+            t, _, v = t.rpartition("s")
+            if not v.isdigit():
+                return ("tie", "unexpected harness token %r" % it[k])
+            sv, stored = "s" + v, int(v)
+        chal = t.startswith("chal:")
+        if op[0] in "goeEwx":
+            if op[0] != "x":
+                genuine.add(int(op.split(".")[1]))
+            if t == "acc" and op[0] == "x":
+                return ("spec", "op %d: forged request %s accepted" % (k + 1, op))
+            if not chal:
+                stripped.append(t + sv)
+                continue
+            t = t[5:]
+        if t == "err":
+            stripped.append(t + sv)
+            continue
+        f = t.split("/")
+        if len(f) != 3 or "." not in f[2]:
+            return ("tie", "unexpected harness token %r" % it[k])
+        piv, key, nonce = f
+        stripped.append(("chal:" if chal else "") + piv + "/" + nonce + sv)
+        nid, npiv = nonce.split(".")
+        if (key, nonce) in seen:
+            k0, life0 = seen[(key, nonce)]
+            if not (piv == "-" and nid == "01" and life0 != life):
+                return ("spec", "op %d (%s): protected with the same key and nonce (id.PIV %s, key %s..) as op %d (%s) — nonce reuse" % (
+                    k + 1, op, nonce, key, k0 + 1, ops[k0]))
+        seen[(key, nonce)] = (k, life)
+        if piv != "-":
+            if nid != "02" or npiv != piv:
+                return ("spec", "op %d (%s): OSCORE option carries Partial IV %s but the nonce used is that of id %s, PIV %s" % (
+                    k + 1, op, piv, nid, npiv))
+        else:
+            if op[0] in "qQDi" or chal:
+                return ("spec", "op %d (%s): protected without a Partial IV of its own (nonce of id %s, PIV %s)" % (k + 1, op, nid, npiv))
+            if nid != "01" or int(npiv) not in genuine:
+                return ("spec", "op %d (%s): protected with the nonce of id %s, PIV %s, which is not the nonce of a request of the peer" % (
+                    k + 1, op, nid, npiv))
+    if " ".join(stripped) != m:
+        return ("tie", "implementation %s but model M says %s" % (" ".join(stripped)[:170], m[:170]))
+    return None
+
+
 def judge(ctx, c):
     op = c["input"].split()[0]
+    if op == "endp":
+        return judge_endp(ctx, c)
     if op == "nonces":
         return judge_nonces(ctx, c)
     if op == "replay":
@@ -619,7 +768,7 @@ def nontrivial(c):
         return "acc:" in i
     if op == "sender":
         return any(t[0].isdigit() for t in i.split())
-    if op == "nonces":
+    if op in ("nonces", "endp"):
         return "/" in i
     return i.startswith("1:") or i.startswith("0:")
 
@@ -667,6 +816,7 @@ def search(ctx, tie_breaks, proof):
     out += [gen_history(rng) for _ in range(40000)]
     out += [gen_mixed(rng) for _ in range(30000)]
     out += [gen_nonces(rng) for _ in range(20000)]
+    out += [gen_endp(rng) for _ in range(20000)]
     out += exhaustive_nonces(4)
     return out
 
@@ -676,8 +826,8 @@ def shrink(ctx, case):
     from vlib.runner import diff_side
     import props.C15 as me
     w = case["input"].split()
-    hdr = 6 if w[0] == "replayst" else 2 if w[0] == "nonces" else 3
-    if w[0] not in ("replay", "replayst", "sender", "nonces") or len(w) < hdr + 2:
+    hdr = 6 if w[0] == "replayst" else 2 if w[0] == "nonces" else 5 if w[0] == "endp" else 3
+    if w[0] not in ("replay", "replayst", "sender", "nonces", "endp") or len(w) < hdr + 2:
         return case
     best, evs = case, w[hdr:]
     changed, rounds = True, 0
